@@ -79,10 +79,12 @@ namespace photon
         auto ret = !ctrl.joining;
         if (ctrl.joining) {
             assert(ctrl.joinable);
+            ctrl.joining = false;               // releases the joiner's re-check loop
             ctrl.cvar.notify_all();
         } else if (ctrl.joinable) {
             ctrl.joining = true;
-            ctrl.cvar.wait(ctrl.m_mtx);
+            while (ctrl.joining)                // an interrupt of this thread must not
+                ctrl.cvar.wait(ctrl.m_mtx);     // be taken for the joiner's arrival
         }
         ctrl.joinable = false;
         ctrl.joining = false;
@@ -120,10 +122,12 @@ namespace photon
 
         auto ret = !pCtrl->joining;
         if (pCtrl->joining) {
+            pCtrl->joining = false;             // releases the worker's re-check loop
             pCtrl->cvar.notify_one();
         } else {
             pCtrl->joining = true;
-            pCtrl->cvar.wait(pCtrl->m_mtx);
+            while (pCtrl->joining)              // like thread_join(): an interrupt of the
+                pCtrl->cvar.wait(pCtrl->m_mtx); // joiner must not end the join early
         }
         return ret;
     }
